@@ -20,7 +20,8 @@ RULE = (
     "fractional weights (mean/stddev/stderr only)} x numeric-value assignments {partial, "
     "repeated, negative, unsorted, none} x {random data, 'median trap': exactly half of a "
     "vector's respondents up to a category that is followed, in value order, by categories "
-    "without respondents, sparse vectors without valued respondents}; with sum subtotals. "
+    "without respondents, sparse vectors without valued respondents, a group answering only "
+    "several value-less categories with shares not adding up to exactly 1.0}; with sum subtotals. "
     "Expected statistics from the individual respondents' numeric values. Non-trivial: "
     "N >= 5, at least two distinct numeric values carried by respondents." % len(TEMPLATES))
 ASSUMPTIONS = [
